@@ -174,6 +174,11 @@ func createMJMLComponent(node *parser.MJMLNode, opts *options.RenderOpts) (*MJML
 						if section, ok := childComponent.(*components.MJSectionComponent); ok {
 							processSectionChildren(section, &wrapperChildOpts)
 						}
+
+						// Process wrapper's hero children (mj-wrapper may hold mj-hero as well)
+						if hero, ok := childComponent.(*components.MJHeroComponent); ok {
+							processComponentChildren(hero, childNode, &wrapperChildOpts)
+						}
 					}
 				}
 			case *components.MJHeroComponent:
